@@ -144,10 +144,7 @@ func cmdVC(args []string) {
 			continue
 		}
 		for _, r := range ur.Results {
-			ok := r.Status == "unsat"
-			if r.Obl.Cover {
-				ok = r.Status == "sat"
-			}
+			ok := r.OK()
 			mark := "ok  "
 			if !ok {
 				mark = "FAIL"
@@ -168,7 +165,7 @@ func cmdVC(args []string) {
 		n, d := 0, 0
 		for _, r := range ur.Results {
 			n++
-			if r.Status == "unsat" && !r.Obl.Cover || r.Status == "sat" && r.Obl.Cover {
+			if r.OK() {
 				d++
 			}
 		}
